@@ -15,6 +15,7 @@ def _decode_tla_string(s):
 
 
 _EXPORT_RE = re.compile(r'^<<"([A-Z_]+)", "(.*)">>$')
+_EXPORT_ANY = re.compile(r'<<"([A-Z_]+)", "((?:[^"\\]|\\.)*)">>')
 _TUPLE_RE = re.compile(r'^<<"([A-Z_]+)", (.*)>>$')
 
 
@@ -87,6 +88,17 @@ def run_tlc(module, cfg_text, workers=1, simulate=None, depth=None, seed=None, t
                     continue
                 except Exception:
                     pass
+            if '<<"' in line and '">>' in line and not _TUPLE_RE.match(line):
+                # several workers may print on one line
+                found = False
+                for m2 in _EXPORT_ANY.finditer(line):
+                    try:
+                        res['exports'].setdefault(m2.group(1), []).append(json.loads(_decode_tla_string(m2.group(2))))
+                        found = True
+                    except Exception:
+                        pass
+                if found:
+                    continue
             m = _TUPLE_RE.match(line)
             if m:
                 res['tuples'].setdefault(m.group(1), []).append(m.group(2))
